@@ -63,6 +63,14 @@ async function prologueCheck() {
   vm.createContext(ctx2);
   let out2;
   try { vm.runInContext(code, ctx2, { timeout: 8000 }); out2 = 'ok ' + show(vm.runInContext(driver, ctx2, { timeout: 8000 })); } catch (e) { out2 = (e && e.code === 'ERR_SCRIPT_EXECUTION_TIMEOUT') ? 'TIMEOUT' : 'throw ' + (e && e.constructor ? e.constructor.name : typeof e) + ' ' + (e && e.message); }
+  // (3) a module-like scope with a binding of its own called `_ddiast` (the typeof guard of the prologue is true there although the
+  // tracer's object is installed globally): the installed global object must survive
+  let calls3 = 0;
+  const installed3 = new Proxy({}, { get: (_t, name) => (res) => { calls3++; return res; } });
+  const ctx3 = { __log: (x) => x, _ddiast: installed3, setTimeout, Promise };
+  vm.createContext(ctx3);
+  try { vm.runInContext('(function () { var _ddiast; try {\n' + code + '\n} catch (e) {} })()', ctx3, { timeout: 8000 }); } catch (e) { /* a syntax error of the wrapper (import/export) decides nothing */ }
+  if (ctx3._ddiast !== installed3) problems.push('installed hook object was replaced from a scope that shadows the name');
   const o = await run(fs.readFileSync(origFile, 'utf8'), false);
   if (out1 === 'TIMEOUT' || out2 === 'TIMEOUT' || o.out === 'TIMEOUT') { console.log('PROLOGUE-UNDECIDED time limit of the oracle reached'); return; }
   if (out2 !== o.out) problems.push('without a tracer: ' + out2 + ' instead of ' + o.out);
